@@ -2625,6 +2625,9 @@ def walk_cases(root):
 def check_C11(ctx):
     lean_check(ctx)
     rng = random.Random(ctx.seed * 1000 + 11)
+    # the size xml_escaped() asks malloc for, against the longest thing a byte can turn into (hypotheses of C11_escape_fits)
+    import xmlsizes as xs
+    generated_obligations(ctx, xs.render, "Cgreen.Gen.XmlSizes", None, "the buffer xml_escaped() allocates")
     bench = Bench(ctx, asan=True)
     shown = {}
     ndis = 0
@@ -2692,6 +2695,11 @@ def check_C11(ctx):
             tests.append(t)
         sc = Scen(S("top", items=tests), mode=rng.choice(["fork", "fork", "inproc"]))
         cases_b.append((sc, "messages"))
+    # every byte value, so that the model's replacement for each byte is compared with what the reporters write for it
+    for lo in range(1, 256, 8):
+        msgs = ["b" + chr(b) * 2 + "e" for b in range(lo, min(lo + 8, 256))]
+        t = T("t0", body=["X" + m_.encode("latin-1").hex() for m_ in msgs]); t.msgs = msgs
+        cases_b.append((Scen(S("top", items=[t]), mode="fork"), "messages"))
     NAMEPOOL = ["a<b", "x&y", 'q"uote', "ap'os", "a>b", "&amp;", "caf\xe9", "caf\xc3\xa9", "eur\xe2\x82\xac", "bad\xff", "bell\x07", "esc\x1b[0m", "p%sct", "%n%n", "n" * 90, "<" * 40, "]]>", "--", "\xc0\x80", "\x01"]
     for i in range(sizes(ctx, 40, 600)):
         cnt = iter(range(100))
